@@ -329,7 +329,7 @@ func runC15(c *vh.Ctx) {
 		panic(err)
 	}
 	// the two command streams (mostly sleeping) run in the background while the CPU-bound streams below run
-	waitStreamDone := c15StartWaitStream(c)
+	waitStreamDone := c15StartWaitStream(c, tmpDir)
 	defer func() {
 		if waitStreamDone != nil {
 			waitStreamDone() // never leave the function with runs in flight
